@@ -31,6 +31,22 @@ func countKinds(tok string, counts map[string]int) {
 
 func runGeneralise(r *core.Run) {
 	tableKinds := strings.Split(r.ModelOnly("C05.tablekinds"), ",")
+	// `wellTypedM` folds two things together: the tree conforms to the Go types, and every comparator CALLED on a part
+	// of it is a well-typed comparator of the regenerated table. When the table itself is not well typed (a fact theorem
+	// of Props/C05.lean fails: reported as a broken obligation, naming the fact) an "ill-typed tree" says nothing about the
+	// tree – it would be reported with an unrelated statement as a "failing input". The per-tree check is made only on a
+	// table whose facts hold.
+	tableOK := r.ModelOnly("C05.tableok") == "true"
+	if !tableOK {
+		r.Note("the regenerated comparator table violates a table-level fact (fact_comparators_ok / fact_table_typed / fact_switches_typed / fact_comparators_compare_pattern_with_query): the typing judgement is not evaluated on individual trees")
+	}
+	checkTyped := func(t, want, desc string) bool {
+		if !tableOK {
+			r.Tag("typed-skipped:table-facts-broken")
+			return true
+		}
+		return r.Check(t == want, "tree-ill-typed", desc+t)
+	}
 	counts := map[string]int{}
 	typedOK, typedBad, unparsed := 0, 0, 0
 	n := r.N(130, 1500)
@@ -52,7 +68,7 @@ func runGeneralise(r *core.Run) {
 		}
 		countKinds(st, counts)
 		r.Begin("typed:"+raw, true, "typed", "stmt:"+kind)
-		if t := r.ModelOnly("C05.typed " + st); r.Check(t == "ok true true", "tree-ill-typed", "the reflection dump of `"+raw+"` is not a well-typed DML tree for the model: "+t) {
+		if t := r.ModelOnly("C05.typed " + st); checkTyped(t, "ok true true", "the reflection dump of `"+raw+"` is not a well-typed DML tree for the model: ") {
 			typedOK++
 		} else {
 			typedBad++
@@ -118,7 +134,7 @@ func runGeneralise(r *core.Run) {
 		}
 		countKinds(st, counts)
 		r.Begin("misc:"+raw, true, "typed", "stmt:other")
-		if t := r.ModelOnly("C05.typed " + st); r.Check(t == "ok true false", "tree-ill-typed", "the reflection dump of `"+raw+"` is not well typed for the model: "+t) {
+		if t := r.ModelOnly("C05.typed " + st); checkTyped(t, "ok true false", "the reflection dump of `"+raw+"` is not well typed for the model: ") {
 			typedOK++
 		} else {
 			typedBad++
